@@ -742,6 +742,8 @@ impl DirectAddrUpdateState {
         run_done: mpsc::Sender<()>,
         shutdown_token: CancellationToken,
     ) -> Self {
+        #[cfg(iroh_verif)]
+        crate::verif_hooks_netrep::c25_register(&net_reporter);
         DirectAddrUpdateState {
             want_update: Default::default(),
             port_mapper,
@@ -758,9 +760,13 @@ impl DirectAddrUpdateState {
     fn schedule_run(&mut self, why: UpdateReason, if_state: IfStateDetails) {
         match self.net_reporter.clone().try_lock_owned() {
             Ok(net_reporter) => {
+                #[cfg(iroh_verif)]
+                iroh_dns::verif::event("c25.schedule", &[("lock", "free".to_string())]);
                 self.run(why, if_state, net_reporter);
             }
             Err(_) => {
+                #[cfg(iroh_verif)]
+                iroh_dns::verif::event("c25.schedule", &[("lock", "held".to_string())]);
                 let _ = self.want_update.insert(why);
             }
         }
@@ -770,11 +776,27 @@ impl DirectAddrUpdateState {
     fn try_run(&mut self, if_state: IfStateDetails) {
         match self.net_reporter.clone().try_lock_owned() {
             Ok(net_reporter) => {
+                #[cfg(iroh_verif)]
+                iroh_dns::verif::event(
+                    "c25.try_run",
+                    &[
+                        ("lock", "free".to_string()),
+                        ("want", self.want_update.is_some().to_string()),
+                    ],
+                );
                 if let Some(why) = self.want_update.take() {
                     self.run(why, if_state, net_reporter);
                 }
             }
             Err(_) => {
+                #[cfg(iroh_verif)]
+                iroh_dns::verif::event(
+                    "c25.try_run",
+                    &[
+                        ("lock", "held".to_string()),
+                        ("want", self.want_update.is_some().to_string()),
+                    ],
+                );
                 // do nothing
             }
         }
@@ -806,6 +828,8 @@ impl DirectAddrUpdateState {
         self.port_mapper.procure_mapping();
 
         trace!("requesting net_report report");
+        #[cfg(iroh_verif)]
+        iroh_dns::verif::event("c25.run_start", &[("why", format!("{why:?}"))]);
         let sock = self.sock.clone();
 
         let run_done = self.run_done.clone();
@@ -834,7 +858,18 @@ impl DirectAddrUpdateState {
 
                 // mark run as finished
                 debug!("direct addr update done ({:?})", why);
+                #[cfg(iroh_verif)]
+                {
+                    iroh_dns::verif::event("c25.report_done", &[]);
+                    iroh_dns::verif::pause_async("c25.before_done_send").await;
+                }
                 run_done.send(()).await.ok();
+                #[cfg(iroh_verif)]
+                {
+                    iroh_dns::verif::event("c25.done_sent", &[]);
+                    iroh_dns::verif::pause_async("c25.after_done_send").await;
+                    iroh_dns::verif::event("c25.run_finish", &[]);
+                }
             }
             .instrument(tracing::Span::current()),
         );
@@ -1569,6 +1604,8 @@ impl Actor {
                 reason = self.direct_addr_done_rx.recv() => {
                     match reason {
                         Some(()) => {
+                            #[cfg(iroh_verif)]
+                            iroh_dns::verif::pause_async("c25.before_try_run").await;
                             // check if a new run needs to be scheduled
                             let state = self.local_interfaces_watcher.get();
                             self.direct_addr_update_state.try_run(state.into());
